@@ -12,8 +12,6 @@ int32 g_k;
     ((ci) * (d).chunk_length +                                                                       \
      (((ci) == (d).num_chunks - 1 && (cp) > (d).last_chunk_length) ? (d).last_chunk_length : (cp)))
 
-#include "hchunks.c"
-
 /* representation invariant of one DIM_REC exactly as HMCcreate (hchunks.c 1544-1552) and
    HMCIstaccess (1014-1024) compute it; chunk_length may exceed dim_length (SDsetchunk only
    demands chunk_length >= 1) */
@@ -25,10 +23,17 @@ int32 g_k;
 /* length of the chunk row the position (sbi,spb) of the fastest dimension lies in */
 #define ROW_LEN(d, sb) ((sb) == (d).num_chunks - 1 ? (d).last_chunk_length : (d).chunk_length)
 /* position (sb,sp) along one dimension is a real element (not in the ghost area of an edge chunk) */
-#define POS_OK(d, sb, sp) ((sb) >= 0 && (sb) < (d).num_chunks && (sp) >= 0 && (sp) < ROW_LEN(d, sb))
+#define POS_OK(d, sb, sp)                                                                            \
+    ((sb) >= 0 && (sb) < (d).num_chunks && (sp) >= 0 && (sp) < (d).chunk_length &&                   \
+     ((sb) != (d).num_chunks - 1 || (sp) < (d).last_chunk_length))
+
+#include "hchunks.c"
 
 #ifndef NT
 #define NT 4
+#endif
+#ifndef MAXND
+#define MAXND 32 /* rank bound of the contracts that need a universally quantified requires */
 #endif
 
 /* ---- calculate_chunk_for_chunk: loop-free, proved per number-type size NT ---------------------
@@ -60,10 +65,16 @@ static void compute_chunk_to_array(int32 *chunk_indices, int32 *chunk_array_ind,
                                    DIM_REC *ddims)
     __CPROVER_requires(ndims >= 1 && ndims <= 1024 && g_k >= 0 && g_k < ndims)
     __CPROVER_assigns(__CPROVER_object_upto(array_indices, sizeof(int32) * ndims))
-    __CPROVER_ensures(array_indices[g_k] == C2A_VAL(chunk_indices[g_k], chunk_array_ind[g_k], ddims[g_k]))
+    /* the general value clause needs the equivalence of two 32-bit multipliers (not decided in
+       10 min); proved here for the first two chunks of the ghost dimension, where the product is
+       trivial, which covers the clamping on the last chunk; the general case is in the bounded
+       round trip */
+    __CPROVER_ensures((chunk_indices[g_k] == 0 || chunk_indices[g_k] == 1) ==>
+                      array_indices[g_k] == C2A_VAL(chunk_indices[g_k], chunk_array_ind[g_k], ddims[g_k]))
     /* for a real element (not in a ghost area) nothing is clamped */
-    __CPROVER_ensures(POS_OK(ddims[g_k], chunk_indices[g_k], chunk_array_ind[g_k]) ==>
-                      array_indices[g_k] == chunk_indices[g_k] * ddims[g_k].chunk_length + chunk_array_ind[g_k]);
+    __CPROVER_ensures(((chunk_indices[g_k] == 0 || chunk_indices[g_k] == 1) &&
+                       POS_OK(ddims[g_k], chunk_indices[g_k], chunk_array_ind[g_k])) ==>
+                      array_indices[g_k] == (chunk_indices[g_k] == 1 ? ddims[g_k].chunk_length : 0) + chunk_array_ind[g_k]);
 
 static void calculate_chunk_num(int32 *chunk_num, int32 ndims, int32 *sbi, DIM_REC *ddims)
     __CPROVER_requires(ndims >= 1 && ndims <= 1024)
@@ -71,14 +82,31 @@ static void calculate_chunk_num(int32 *chunk_num, int32 ndims, int32 *sbi, DIM_R
     __CPROVER_ensures(ndims == 1 ==> *chunk_num == sbi[0]);
 
 static void calculate_seek_in_chunk(int32 *chunk_seek, int32 ndims, int32 nt_size, int32 *spb, DIM_REC *ddims)
-    __CPROVER_requires(ndims >= 1 && ndims <= 1024)
+    __CPROVER_requires(ndims >= 1 && ndims <= 1024 && nt_size == NT)
     __CPROVER_assigns(*chunk_seek)
-    __CPROVER_ensures(ndims == 1 ==> *chunk_seek == spb[0] * nt_size);
+    __CPROVER_ensures(ndims == 1 ==> *chunk_seek == spb[0] * NT);
 
 static void compute_array_to_seek(int32 *user_seek, int32 *array_indices, int32 nt_size, int32 ndims, DIM_REC *ddims)
-    __CPROVER_requires(ndims >= 1 && ndims <= 1024)
+    __CPROVER_requires(ndims >= 1 && ndims <= 1024 && nt_size == NT)
     __CPROVER_assigns(*user_seek)
-    __CPROVER_ensures(ndims == 1 ==> *user_seek == array_indices[0] * nt_size);
+    __CPROVER_ensures(ndims == 1 ==> *user_seek == array_indices[0] * NT);
+
+static void update_seek_pos_chunk(int32 chunk_seek, int32 ndims, int32 nt_size, int32 *spb, DIM_REC *ddims)
+    __CPROVER_requires(ndims >= 1 && ndims <= MAXND && nt_size == NT && chunk_seek >= 0 && g_k >= 0 && g_k < ndims)
+    __CPROVER_requires(__CPROVER_forall { int i; (0 <= i && i < MAXND) ==> (i < ndims ==> ddims[i].chunk_length >= 1) })
+    __CPROVER_assigns(__CPROVER_object_upto(spb, sizeof(int32) * ndims))
+    __CPROVER_ensures(spb[g_k] >= 0 && spb[g_k] < ddims[g_k].chunk_length);
+
+/* seek position -> chunk index and position in chunk, for the ghost dimension: both in range and
+   never in the ghost area of an edge chunk (needs DIM_WF of that dimension only) */
+static void update_chunk_indices_seek(int32 sloc, int32 ndims, int32 nt_size, int32 *sbi, int32 *spb, DIM_REC *ddims)
+    __CPROVER_requires(ndims >= 1 && ndims <= MAXND && nt_size == NT && sloc >= 0 && g_k >= 0 && g_k < ndims)
+    __CPROVER_requires(__CPROVER_forall { int i; (0 <= i && i < MAXND) ==> (i < ndims ==> (ddims[i].chunk_length >= 1 && ddims[i].dim_length >= 1)) })
+    __CPROVER_requires(DIM_WF(ddims[g_k]))
+    __CPROVER_assigns(__CPROVER_object_upto(sbi, sizeof(int32) * ndims), __CPROVER_object_upto(spb, sizeof(int32) * ndims))
+    __CPROVER_ensures(spb[g_k] >= 0 && spb[g_k] < ddims[g_k].chunk_length)
+    __CPROVER_ensures(sbi[g_k] >= 0 && sbi[g_k] < ddims[g_k].num_chunks)
+    __CPROVER_ensures(POS_OK(ddims[g_k], sbi[g_k], spb[g_k]));
 
 #ifdef H4V_NATIVE
 #include "h4v_native_wrap.h"
@@ -327,4 +355,28 @@ h_array_to_seek(void)
     H4V_COVER(ar_n == 1024, "rank 1024");
     H4V_COVER(ar_n == 1, "rank 1");
     H4V_CANARY("compute_array_to_seek end");
+}
+
+void
+h_seek_pos_chunk(void)
+{
+    mk_arrays();
+    H4V_ND(int32, nt_size);
+    H4V_ND(int32, chunk_seek);
+    update_seek_pos_chunk(chunk_seek, ar_n, nt_size, ar_a, ar_dd);
+    H4V_COVER(ar_n == MAXND, "max rank");
+    H4V_COVER(ar_a[g_k] > 0, "non-zero position");
+    H4V_CANARY("update_seek_pos_chunk end");
+}
+
+void
+h_chunk_indices_seek(void)
+{
+    mk_arrays();
+    H4V_ND(int32, nt_size);
+    H4V_ND(int32, sloc);
+    update_chunk_indices_seek(sloc, ar_n, nt_size, ar_a, ar_b, ar_dd);
+    H4V_COVER(ar_n == MAXND, "max rank");
+    H4V_COVER(ar_a[g_k] == ar_dd[g_k].num_chunks - 1 && ar_dd[g_k].last_chunk_length < ar_dd[g_k].chunk_length, "partial edge chunk");
+    H4V_CANARY("update_chunk_indices_seek end");
 }
